@@ -21,7 +21,8 @@ import workload
 
 EXTS = ("sql", "ddl", "hql", "bql")
 NAMES_SINGLE = ["t.sql", "T.ddl", "x.hql", "q.bql", "my_tables.sql", "a-b.ddl", "таблицы.sql"]
-NAMES_ODD = ["multi.part.sql", "noext", "other.txt", "trailing.", "v1.2.final.ddl", "UP.SQL"]
+NAMES_ODD = ["multi.part.sql", "noext", "other.txt", "trailing.", "v1.2.final.ddl", "UP.SQL",
+             "[draft] users.sql", "users [v2].sql", "`q`.ddl", "\"quoted\".hql", " spaced name .sql"]
 ENC_EXTRA = {
     "utf-8": "-- коммент 表 café\n",
     "utf-8-sig": "-- коммент 表\n",
